@@ -98,13 +98,20 @@ fn case_strategy(max_sched: usize) -> BoxedStrategy<C13Case> {
                 any::<bool>(),
                 any::<bool>(),
                 mode,
-                1u8..3,
+                // one case in six: a 16-page stream and a long transmission, so that one work()
+                // call can see tens of thousands of bits at once
+                prop_oneof![5 => 1u8..3, 1 => Just(16u8)],
                 schedule_strategy(max_sched),
                 crate::dripcase::drain_sz(),
             )
         })
         .prop_map(|(frames, noise_len, noise_seed, lead_flags, min, max, checksum, fix, mode, in_pages, schedule, drain_feed)| C13Case {
-            frames,
+            frames: if in_pages >= 16 {
+                // the same frame shapes five times over, with other contents
+                (0..5u32).flat_map(|r| frames.iter().map(move |f| FrameSpec { seed: f.seed.wrapping_add(r.wrapping_mul(0x9E37)), ..f.clone() })).collect()
+            } else {
+                frames
+            },
             noise_len,
             noise_seed,
             lead_flags,
@@ -115,7 +122,7 @@ fn case_strategy(max_sched: usize) -> BoxedStrategy<C13Case> {
             mode,
             in_pages,
             schedule,
-            drain_feed,
+            drain_feed: if in_pages >= 16 { Sz::All } else { drain_feed },
         })
         .boxed()
 }
